@@ -26,7 +26,7 @@ BOUNDS = {
              'L<=2 under every table reached from the default by one \\catcode(ch,code) with ch in a 7-character alphabet and code 0..15 symbolic; '
              'lexer-state prefixes x L<=2; a category code (one of 7 characters, code 0..15 symbolic) reassigned between the first and the second token request of 7 prefixes x L<=1',
     'thorough': 'L<=4 default; L<=4 @-letter, verbatim; L<=3 with one reassignment (7-char alphabet x 16 codes), L<=2 with the 13-char alphabet; two reassignments: '
-                '3-char alphabet at L<=2, 7-char alphabet at L<=1, one character twice at L<=2; all 27 lexer-state prefixes x L<=3; one \\let alias table; mid-stream reassignment after the first or second token of 12 prefixes x L<=2',
+                '3-char alphabet at L<=2, 7-char alphabet at L<=1, one character twice at L<=2; all 27 lexer-state prefixes x L<=3; one \\let alias table; mid-stream reassignment after the first or second token of 12 prefixes x L<=1 and after the first token of 4 prefixes x L<=2',
 }
 ASSUMPTIONS = ['the StringIO source is replaced by a 10-line file-like stub serving one character per read(1)',
                'Token.__eq__/__ne__/__lt__/__str__ are re-stated in the SymTok proxy (validated against the real classes at the start of every run)',
@@ -323,5 +323,7 @@ def jobs(tier, seed):
         J.append(dict(harness='h_lex', params=dict(L=3, lets=True), label='let alias free L=3'))
         for p in MID_PREFIXES:
             for after in (1, 2):
-                J.append(dict(harness='h_midstream', params=dict(L=2, prefix=p, re_alpha=MID_ALPHA, after=after), split=14, label='mid-stream reassignment after token %d of %r L=2' % (after, p), no_twin=True))
+                J.append(dict(harness='h_midstream', params=dict(L=1, prefix=p, re_alpha=MID_ALPHA, after=after), split=14, label='mid-stream reassignment after token %d of %r L=1' % (after, p), no_twin=True))
+        for p in MID_PREFIXES[:4]:
+            J.append(dict(harness='h_midstream', params=dict(L=2, prefix=p, re_alpha=MID_ALPHA, after=1), split=14, label='mid-stream reassignment after token 1 of %r L=2' % p, no_twin=True))
     return J
